@@ -371,7 +371,8 @@ func oracleLogs(c *Ctx, sc *DialScenario, run *DialRun) {
 	if sc.LogAuth {
 		return
 	}
-	all := strings.Join(run.Logs, "\n")
+	// what the records say when formatted, and everything else they carry (a custom logger sees the whole value)
+	all := strings.Join(run.Logs, "\n") + "\n" + strings.Join(run.LogsWhole, "\n")
 	if f := containsSecret([]byte(all), sc.User, sc.Pass); f != "" {
 		c.Violate("c16-secret-logged", fmt.Sprintf("a log record contains the password (form %q)", f), sc)
 	}
@@ -485,5 +486,9 @@ var scramRestartSeqs = [][]string{
 	{"empty", "first-trunc", "final-bad", "235"}, {"empty", "first-foreign", "final-bad", "235"},
 	{"empty", "first", "first-foreign", "final-bad", "235"}, {"empty", "first", "first-trunc", "final-bad", "235"},
 	{"empty", "first", "final", "first-foreign", "final-bad", "235"},
+	// the same Client dials again ("|"): nothing of the finished exchange is good for the next connection
+	{"empty", "first", "final", "235", "|", "final-stale", "235"}, {"empty", "first", "final", "235", "|", "final-stale"},
+	{"empty", "first", "final", "235", "|", "empty", "final-stale", "235"}, {"empty", "first", "final", "235", "|", "empty", "first", "final", "235"},
+	{"empty", "first", "final", "235", "|", "235"}, {"empty", "first", "535", "|", "final-stale", "235"}, {"empty", "first", "final", "235", "|", "final-empty", "235"},
 	{"empty", "first", "empty", "first-trunc", "final-bad", "235"},
 }
